@@ -218,6 +218,9 @@ func (m *monState) checkSaveStep(si *StepInfo, pre, post *Snap, evs []Event) {
 			gone := removed[j.Name] != nil
 			if gone && !j.Terminal() {
 				run.violate("C12", "r1", "step %d: save removed job %s of defined pipeline %s, which is %s", si.N, j.Name, pname, brief(j))
+				if j.Waiting() {
+					run.violate("C03", "r3", "step %d: accepted job %s of pipeline %s was waiting and has vanished (removed by a save): it can neither start nor be reported canceled any more", si.N, j.Name, pname)
+				}
 			}
 			if gone && def.RetCount == 0 && def.RetPeriodMs == 0 {
 				run.violate("C12", "r4", "step %d: pipeline %s has no retention settings but a save removed job %s", si.N, pname, j.Name)
